@@ -78,6 +78,20 @@ def contract(name, params, returns=None, props=(), assumed=False):
     return deco
 
 
+
+def register_wsum(eng, n, term, assume):
+    """the recursively defined sum of term(0..n-1); returns IntV(WS(n)) and records (n, term) for SUM-CONGRUENCE"""
+    from .values import fresh_fun
+
+    ws = fresh_fun("wsum", z3.IntSort(), z3.IntSort())
+    k = fresh("wk")
+    assume(ws(z3.IntVal(0)) == 0)
+    assume(z3.ForAll([k], z3.Implies(z3.And(k >= 0, k < n), ws(k + 1) == ws(k) + term(k)), patterns=[ws(k + 1)], qid="rec-wsum"))
+    out = IntV(ws(n))
+    key = z3.simplify(out.t)
+    eng.__dict__.setdefault("sum_registry", {})[key.get_id()] = {"n": n, "term": term, "fun": ws, "key": key}
+    return out
+
 def lemma(name, params, props=(), induction=None):
     def deco(fn):
         LEMMAS[name] = {"fn": fn, "params": dict(params), "props": tuple(props), "induction": induction}
@@ -389,7 +403,12 @@ class SymCtx:
             if self.engine is not None:
                 self.engine.rules_used.add("filter-congruence")
             return BoolV(z3.And(fa["n"] == fb["n"], z3.ForAll([i], body)))
-        return BoolV(veq(a, b))
+        out = veq(a, b)
+        if fa is None and fb is not None and isinstance(a, SeqV) and a.meta.get("fresh_result"):
+            # candidate: the fresh result of a call by contract is stated equal to a filter; the engine
+            # keeps it only if this equality is a top-level conjunct of the assumed postcondition
+            a.meta["eq_filter_candidate"] = (fb, out)
+        return BoolV(out)
 
     def listing(self, name, lo, hi, pred, val=None):
         """[val(i) for i in range(lo, hi) if pred(i)]  (definitional filter; one instance per name
@@ -427,6 +446,52 @@ class SymCtx:
         """Number of listed elements whose index is < k."""
         f = listing.meta["filter"]
         return IntV(f["cnt"](Z(k) - f["lo"]))
+
+    def wsum(self, name, lo, hi, term):
+        """sum(term(i) for i in range(lo, hi))  as a RECURSIVELY DEFINED spec function (one per name and run):
+        WS(0) = 0, WS(k+1) = WS(k) + term(lo+k)  (well-founded recursion: conservative).  The value is registered
+        so that `sum_eq` can compare two such sums summand by summand (rule SUM-CONGRUENCE)."""
+        eng = self.engine
+        cache = eng.__dict__.setdefault("wsums", {})
+        if name in cache:
+            return cache[name]
+        lo_t, hi_t = Z(lo), Z(hi)
+        n = z3.If(hi_t > lo_t, hi_t - lo_t, z3.IntVal(0))
+        out = register_wsum(eng, n, lambda k: Z(term(IntV(lo_t + k))), eng.global_axioms.append)
+        cache[name] = out
+        return out
+
+    def wsum_upto(self, name, lo, hi, term, k):
+        """the partial sum of the first k terms of wsum(name, lo, hi, term) (the recursively defined WS at k)"""
+        tot = self.wsum(name, lo, hi, term)
+        ws = self.engine.sum_registry[z3.simplify(tot.t).get_id()]["fun"]
+        return IntV(ws(Z(k)))
+
+    def rec_psum(self, name, seq, j):
+        """RECURSIVELY DEFINED prefix sum of a sequence: P(0) = 0, P(j+1) = P(j) + seq[j] - what sum() computes"""
+        eng = self.engine
+        cache = eng.__dict__.setdefault("rec_psums", {})
+        if name not in cache:
+            from .values import fresh_fun
+
+            P_ = fresh_fun("rpsum", z3.IntSort(), z3.IntSort())
+            jv = fresh("pj")
+            eng.global_axioms.append(P_(z3.IntVal(0)) == 0)
+            eng.global_axioms.append(z3.ForAll([jv], z3.Implies(z3.And(jv >= 0, jv < Z(self.len(seq))), P_(jv + 1) == P_(jv) + Z(seq[IntV(jv)])), patterns=[P_(jv + 1)], qid="rec-psum"))
+            cache[name] = P_
+        return IntV(cache[name](Z(j)))
+
+    def sum_eq(self, a, b):
+        """a == b for two registered sums: rule SUM-CONGRUENCE (generic lemma, induction on the length): two sums over
+        index ranges of the same length with pointwise equal summands are equal.  Anything else: plain equality."""
+        eng = self.engine
+        reg = eng.__dict__.setdefault("sum_registry", {})
+        ra, rb = reg.get(z3.simplify(Z(a)).get_id()), reg.get(z3.simplify(Z(b)).get_id())
+        if ra is None or rb is None:
+            return BoolV(Z(a) == Z(b))
+        eng.rules_used.add("sum-congruence (sums over index ranges of equal length with pointwise equal summands are equal; lemma:sum_congruence)")
+        i = fresh("sc")
+        return BoolV(z3.And(ra["n"] == rb["n"], z3.ForAll([i], z3.Implies(z3.And(i >= 0, i < ra["n"]), ra["term"](i) == rb["term"](i)))))
 
     def ghost(self, name, *args):
         """Value of an uninterpreted SPEC function at these arguments.  Object arguments
@@ -776,6 +841,18 @@ class RunCtx:
 
     def count_upto(self, listing, k):
         return sum(1 for i in listing.indices if i < k)
+
+    def wsum(self, name, lo, hi, term):
+        return sum(term(i) for i in range(lo, hi))
+
+    def wsum_upto(self, name, lo, hi, term, k):
+        return sum(term(i) for i in range(lo, min(hi, lo + k)))
+
+    def rec_psum(self, name, seq, j):
+        return sum(list(seq)[:j])
+
+    def sum_eq(self, a, b):
+        return a == b
 
     def ghost(self, name, *args):
         return GHOST_IMPL[name](*args)
